@@ -253,6 +253,7 @@ def scenario(case, ctx, rng):
     N = 7
     data = torch.tensor(rng.integers(0, 2, size=(N, nv)), dtype=torch.double)
     bases = gen.random_bases(rng, N, nv)
+    bases[0] = "Z"  # training with bases needs at least one reference-basis row to start the negative chains from
     before = dict(contracts.REC.evals)
     if kind == "positive":
         ctx.lib("gradient", st.gradient, data)
